@@ -1,6 +1,329 @@
+//! C13 — after reinit/reset a sketcher behaves exactly like a new one (differential monitor)
 use crate::common::*;
+use crate::gen::*;
+use crate::sk::*;
+use fnv::FnvHasher;
+use probminhash::densminhash::{OptDensMinHash, RevOptDensMinHash};
+use probminhash::probminhasher::probordminhash2::ProbOrdMinHash2;
+use probminhash::probminhasher::ProbMinHash2;
+use probminhash::setsketcher::{SetSketchParams, SetSketcher};
+use rand::Rng as _;
+use rayon::prelude::*;
+use serde_json::{json, Value};
+
+struct Out {
+    nops: u64,
+    fail: Option<(String, String)>,
+    case: Value,
+}
+
+fn rand_stream(rng: &mut Rng, pool: &[u64], maxn: usize) -> Vec<u64> {
+    let n = match rng.random_range(0..5) {
+        0 => 1,
+        1 => rng.random_range(1..5),
+        _ => rng.random_range(1..maxn.max(2)),
+    };
+    (0..n).map(|_| if rng.random_range(0..3) == 0 { pool[rng.random_range(0..pool.len())] } else { fresh_ids(rng, 1, 0)[0] }).collect()
+}
+
+/// generic unweighted sketchers through the USk trait
+fn usk_case(kind: UKind, m: usize, seed: u64) -> Out {
+    let mut rng = rng_from(seed);
+    let pool = fresh_ids(&mut rng, 50, 0);
+    let mut used = make_usk(kind, m);
+    let mut ops = Vec::new();
+    let mut nops = 0;
+    // several rounds: pre-history, reinit, input X, compare with a fresh sketcher
+    for round in 0..rng.random_range(1..4) {
+        let nhist = rng.random_range(0..5);
+        let mut streamed = false;
+        for _ in 0..nhist {
+            let xs = rand_stream(&mut rng, &pool, 20 * m.min(100) + 5);
+            match rng.random_range(0..3) {
+                0 => {
+                    used.sketch_slice(&xs);
+                    ops.push(json!(["sketch_slice", xs.len()]));
+                }
+                1 => {
+                    for x in &xs {
+                        used.sketch(*x);
+                    }
+                    ops.push(json!(["sketch_items", xs.len()]));
+                }
+                _ => {
+                    for x in xs.iter().take(3) {
+                        used.sketch(*x);
+                    }
+                    ops.push(json!(["sketch_items", xs.len().min(3)]));
+                }
+            }
+            streamed = true;
+            nops += 1;
+            // finished or unfinished densification
+            if kind.is_dens() && rng.random_range(0..2) == 0 {
+                used.finish();
+                ops.push(json!(["end_sketch"]));
+            }
+        }
+        let _ = streamed;
+        used.reinit();
+        ops.push(json!(["reinit"]));
+        let x = rand_stream(&mut rng, &pool, 20 * m.min(100) + 5);
+        let mut fresh = make_usk(kind, m);
+        if rng.random_range(0..2) == 0 {
+            used.sketch_slice(&x);
+            fresh.sketch_slice(&x);
+        } else {
+            for d in &x {
+                used.sketch(*d);
+                fresh.sketch(*d);
+            }
+            used.finish();
+            fresh.finish();
+        }
+        nops += 1;
+        ops.push(json!(["input_X", x.len()]));
+        if used.bits() != fresh.bits() {
+            let a = used.bits();
+            let b = fresh.bits();
+            let p = (0..a.len()).find(|&p| a[p] != b[p]).unwrap_or(0);
+            return Out { nops, fail: Some(("C13/differs-from-fresh".into(), format!("{} m={} round {}: after reinit the sketch of {} items differs from a new sketcher's at entry {} of the bit image ({:#x} vs {:#x})", kind.name(), m, round, x.len(), p, a[p], b[p]))), case: json!({"kind": kind.name(), "m": m, "ops": ops}) };
+        }
+    }
+    Out { nops, fail: None, case: json!({"kind": kind.name(), "m": m, "ops": ops}) }
+}
+
+/// SetSketcher with merges, clipping and secondary observables
+fn setsketch_case<const U16: bool>(seed: u64) -> Out {
+    type S16 = SetSketcher<u16, u64, FnvHasher>;
+    type S32 = SetSketcher<u32, u64, FnvHasher>;
+    let mut rng = rng_from(seed);
+    let b = [1.0001, 1.001, 1.05, 2.0][rng.random_range(0..4)];
+    let m = [1u64, 2, 16, 64, 300][rng.random_range(0..5)];
+    let (a, q) = [(20., 65534u64), (5., 12), (20., 1_000_000), (30., 40)][rng.random_range(0..4)];
+    let params = SetSketchParams::new(b, m, a, q);
+    let pool = fresh_ids(&mut rng, 50, 0);
+    let mut ops = Vec::new();
+    let mut nops = 0;
+    macro_rules! body {
+        ($t:ty) => {{
+            let mut used = <$t>::new(params, Default::default());
+            for round in 0..rng.random_range(1..4) {
+                for _ in 0..rng.random_range(0..5) {
+                    if rng.random_range(0..3) == 0 {
+                        let mut o = <$t>::new(params, Default::default());
+                        o.sketch_slice(&rand_stream(&mut rng, &pool, 3000)).unwrap();
+                        used.merge(&o).unwrap();
+                        ops.push(json!(["merge"]));
+                    } else {
+                        let xs = rand_stream(&mut rng, &pool, 3000);
+                        used.sketch_slice(&xs).unwrap();
+                        ops.push(json!(["sketch_slice", xs.len()]));
+                    }
+                    nops += 1;
+                }
+                let ov_before = used.get_nb_overflow();
+                used.reinit();
+                ops.push(json!(["reinit", {"overflow_before": ov_before}]));
+                let x = rand_stream(&mut rng, &pool, 3000);
+                let mut fresh = <$t>::new(params, Default::default());
+                used.sketch_slice(&x).unwrap();
+                fresh.sketch_slice(&x).unwrap();
+                nops += 1;
+                let obs = |s: &$t| (s.get_signature().iter().map(|v| *v as u64).collect::<Vec<u64>>(), s.get_low_sketch(), s.get_nb_overflow(), s.get_cardinal_stats().0.to_bits());
+                if obs(&used) != obs(&fresh) {
+                    let (ru, lu, ou, _) = obs(&used);
+                    let (rf, lf, of, _) = obs(&fresh);
+                    return Out { nops, fail: Some(("C13/differs-from-fresh".into(), format!("SetSketcher b={} m={} a={} q={} round {}: after reinit registers equal: {}, low {} vs {}, overflow {} vs {}", b, m, a, q, round, ru == rf, lu, lf, ou, of))), case: json!({"kind": "SetSketcher", "b": b, "m": m, "a": a, "q": q, "ops": ops}) };
+                }
+                // a following merge and further streaming behave the same
+                let mut o = <$t>::new(params, Default::default());
+                o.sketch_slice(&rand_stream(&mut rng, &pool, 500)).unwrap();
+                used.merge(&o).unwrap();
+                fresh.merge(&o).unwrap();
+                let y = rand_stream(&mut rng, &pool, 500);
+                used.sketch_slice(&y).unwrap();
+                fresh.sketch_slice(&y).unwrap();
+                if obs(&used) != obs(&fresh) {
+                    return Out { nops, fail: Some(("C13/differs-from-fresh".into(), format!("SetSketcher b={} m={} a={} q={} round {}: after reinit + merge + further streaming the observables differ from a new sketcher's", b, m, a, q, round))), case: json!({"kind": "SetSketcher", "b": b, "m": m, "a": a, "q": q, "ops": ops}) };
+                }
+            }
+        }};
+    }
+    if U16 {
+        body!(S16);
+    } else {
+        body!(S32);
+    }
+    Out { nops, fail: None, case: json!({"kind": "SetSketcher", "registers": if U16 { "u16" } else { "u32" }, "b": b, "m": m, "a": a, "q": q, "ops": ops}) }
+}
+
+/// densified sketchers: raw state after reinit + partial input
+fn dens_raw_case(seed: u64) -> Out {
+    let mut rng = rng_from(seed);
+    let m = rng.random_range(1..200);
+    let pool = fresh_ids(&mut rng, 30, 0);
+    let opt = rng.random_range(0..2) == 0;
+    let mut nops = 0;
+    macro_rules! body {
+        ($t:ident) => {{
+            let mut used = $t::<f64, u64, FnvHasher>::new(m, Default::default());
+            for _ in 0..rng.random_range(0..4) {
+                let xs = rand_stream(&mut rng, &pool, 3 * m);
+                for x in &xs {
+                    used.sketch(x);
+                }
+                if rng.random_range(0..2) == 0 {
+                    used.end_sketch();
+                }
+                nops += 1;
+            }
+            used.reinit();
+            let mut fresh = $t::<f64, u64, FnvHasher>::new(m, Default::default());
+            let x = rand_stream(&mut rng, &pool, m);
+            for d in &x {
+                used.sketch(d);
+                fresh.sketch(d);
+            }
+            nops += 1;
+            let (a, b) = (used.verif_raw_state(), fresh.verif_raw_state());
+            let same = a.0.iter().map(|v| v.to_bits()).eq(b.0.iter().map(|v| v.to_bits())) && a.1 == b.1 && a.2 == b.2 && a.3 == b.3;
+            if !same {
+                return Out { nops, fail: Some(("C13/differs-from-fresh".into(), format!("{} m={}: raw state (values, hashes, populated flags, nb_empty {} vs {}) after reinit + partial stream differs from a new sketcher's", stringify!($t), m, a.3, b.3))), case: json!({"kind": stringify!($t), "m": m}) };
+            }
+        }};
+    }
+    if opt {
+        body!(OptDensMinHash);
+    } else {
+        body!(RevOptDensMinHash);
+    }
+    Out { nops, fail: None, case: json!({"kind": if opt { "OptDensMinHash raw" } else { "RevOptDensMinHash raw" }, "m": m}) }
+}
+
+fn pmh2_case(seed: u64) -> Out {
+    let mut rng = rng_from(seed);
+    let m = [1usize, 2, 3, 16, 100, 500][rng.random_range(0..6)];
+    let mut used = ProbMinHash2::<u64, FnvHasher>::new(m, 0);
+    let mut nops = 0;
+    let gen_w = |rng: &mut Rng| -> Vec<(u64, f64)> {
+        let n = rng.random_range(1..80);
+        fresh_ids(rng, n, 0).into_iter().map(|d| (d, 10f64.powf(rng.random_range(-3.0..3.0)))).collect()
+    };
+    for round in 0..3 {
+        for _ in 0..rng.random_range(0..3) {
+            for (d, w) in gen_w(&mut rng) {
+                used.hash_item(d, w);
+            }
+            nops += 1;
+        }
+        used.reset();
+        let x = gen_w(&mut rng);
+        let mut fresh = ProbMinHash2::<u64, FnvHasher>::new(m, 0);
+        for (d, w) in &x {
+            used.hash_item(*d, *w);
+            fresh.hash_item(*d, *w);
+        }
+        nops += 1;
+        if used.get_signature() != fresh.get_signature() || used.verif_registers().iter().map(|v| v.to_bits()).ne(fresh.verif_registers().iter().map(|v| v.to_bits())) {
+            return Out { nops, fail: Some(("C13/differs-from-fresh".into(), format!("ProbMinHash2 m={} round {}: signature or registers after reset differ from a new sketcher's", m, round))), case: json!({"kind": "ProbMinHash2", "m": m}) };
+        }
+    }
+    Out { nops, fail: None, case: json!({"kind": "ProbMinHash2", "m": m}) }
+}
+
+fn ord_case(seed: u64) -> Out {
+    let mut rng = rng_from(seed);
+    let m = [1u32, 4, 32, 200][rng.random_range(0..4)];
+    let l = rng.random_range(1..6);
+    let alphabet = fresh_ids(&mut rng, 12, 0);
+    let gen_seq = |rng: &mut Rng| -> Vec<u64> {
+        let n = rng.random_range(l..l + 50);
+        (0..n).map(|_| alphabet[rng.random_range(0..alphabet.len())]).collect()
+    };
+    let x = gen_seq(&mut rng);
+    let mut sk = ProbOrdMinHash2::<FnvHasher>::new(m, l);
+    let first = sk.hash_set(&x);
+    let idx_first = sk.verif_selected_indices();
+    let mut nops = 1;
+    for _ in 0..rng.random_range(1..6) {
+        let y = gen_seq(&mut rng);
+        sk.hash_set(&y);
+        nops += 1;
+    }
+    let again = sk.hash_set(&x);
+    let idx_again = sk.verif_selected_indices();
+    nops += 1;
+    let fresh = ProbOrdMinHash2::<FnvHasher>::new(m, l).hash_set(&x);
+    let fail = if again != first || idx_again != idx_first {
+        Some(("C13/differs-from-fresh".to_string(), format!("ProbOrdMinHash2 m={} l={}: hash_set of the same sequence after other calls differs from the first result on that instance", m, l)))
+    } else if fresh != first {
+        Some(("C13/differs-from-fresh".to_string(), format!("ProbOrdMinHash2 m={} l={}: a reused instance and a new instance disagree", m, l)))
+    } else {
+        None
+    };
+    Out { nops, fail, case: json!({"kind": "ProbOrdMinHash2", "m": m, "l": l, "len": x.len()}) }
+}
 
 pub fn run(rep: &mut Report) {
-    let _ = rep;
-    eprintln!("C13 not implemented yet");
+    quiet_panics();
+    rep.rule = "per case: random pre-history (partial streams via slice / item calls, finished or unfinished densification, merges, registers clipped with u16 and small q, several hash_set calls), then reinit/reset, then input X on the used sketcher and on a freshly constructed one: bit-identical sketches and secondary observables (low sketch, overflow count, cardinality, result of a following merge + further streaming, raw densification state, ProbMinHash2 registers, selected indices). Families: SuperMinHash f32/f64/NoHash, SuperMinHash2 u64/u32, SetSketcher u16/u32, Opt/RevOpt densification f32/f64, ProbMinHash2, ProbOrdMinHash2. Distinct = (family, seed); non-trivial when the pre-history is non-empty or repeated rounds ran".into();
+    let n: u64 = rep.tier.pick(40_000, 1_000_000);
+    let seed = subseed(rep.seed, "C13", &[]);
+    let kinds = crate::c04::kinds();
+    let only = rep.only_cell.clone();
+    let res: Vec<(u64, Result<Out, String>)> = (0..n)
+        .into_par_iter()
+        .filter(|i| only.as_ref().map(|c| c == &format!("case{}", i) || c == "cases").unwrap_or(true))
+        .map(|i| {
+            let s = mix(&[seed, i]);
+            (
+                i,
+                catch(std::panic::AssertUnwindSafe(|| {
+                    let fam = i % 24;
+                    if fam < 15 {
+                        let kind = kinds[fam as usize];
+                        let mut rng = rng_from(mix(&[s, 1]));
+                        let m = match rng.random_range(0..5) {
+                            0 => 1,
+                            1 => 2,
+                            2 => rng.random_range(3..20),
+                            _ => rng.random_range(20..400),
+                        };
+                        usk_case(kind, m, s)
+                    } else if fam < 18 {
+                        setsketch_case::<true>(s)
+                    } else if fam < 20 {
+                        setsketch_case::<false>(s)
+                    } else if fam < 22 {
+                        dens_raw_case(s)
+                    } else if fam == 22 {
+                        pmh2_case(s)
+                    } else {
+                        ord_case(s)
+                    }
+                })),
+            )
+        })
+        .collect();
+    for (i, r) in res {
+        let cell = format!("case{}", i);
+        match r {
+            Ok(o) => {
+                rep.evaluations += o.nops;
+                rep.count("cases", 1);
+                if o.nops >= 2 {
+                    rep.distinct.insert(mix(&[i, 13]));
+                }
+                if i % 24 == 0 && i < 72 || i == 15 || i == 23 {
+                    rep.sample(o.case.clone());
+                }
+                if let Some((k, w)) = o.fail {
+                    rep.violation(&k, &cell, w, o.case);
+                }
+            }
+            Err(p) => rep.violation("C13/panic", &cell, format!("panic: {}", p), json!({"case": i})),
+        }
+    }
+    collect_ticks(rep);
 }
